@@ -33,7 +33,7 @@ TAU_FD = 2e-6
 DIMS = [
     ("mol", ["LiHgc", "LiH", "HF", "H2O", "He", "Hed"]),  # base: generally contracted shells (NCTR = 2)
     ("fam", ["VIJ", "SL", "VJ", "VI", "VK", "SDMX", "VIJ+SDMX1", "VJ2", "VIJ2", "VI0", "SDMX1", "SDMXG", "SDMXG1",
-             "SDMXFull", "SADM", "VK+SDMXG1"]),
+             "SDMXFull", "SADM", "VK+SDMXG1", "FL", "FL0", "VJ+FL", "FL0+SDMX"]),
     ("sl", ["npa", "nst", "np", "ns"]),
     ("nspin", [1, 2]),
     ("plan", ["gaussian", "spline"]),
@@ -141,11 +141,25 @@ def run_case(case):
 
     from mc import fixtures as F
 
-    mol, ks, dm = build(case)
     nspin = case["nspin"]
     fails = []
     cfg = tag(case, [n for n in SPACE.names if n != "dm"])
-    nelec, exc, vmat = F.nr(ks, dm)
+    if "FL" in case["fam"]:
+        # models with fractional-Laplacian (orbital) features go through NLOFNumInt / NLDFNLOFNumInt; an unsupported
+        # combination may be rejected with NotImplementedError, anything else raised on valid input is reported with the
+        # exception type in the key (the derivative comparison below applies as soon as a matrix is returned)
+        try:
+            mol, ks, dm = build(case)
+            nelec, exc, vmat = F.nr(ks, dm)
+        except NotImplementedError:
+            return {"fail": [], "evals": 1, "outcome": "rejected"}
+        except Exception as e:
+            return {"fail": [{"key": "nlof-integrator-raises;fam=%s;sl=%s;nspin=%d;%s" % (case["fam"], case["sl"], nspin, type(e).__name__),
+                              "msg": "evaluating a model with fractional-Laplacian features (%s) raised %s: %s" % (cfg, type(e).__name__, str(e)[:200])}],
+                    "evals": 1, "outcome": "raised"}
+    else:
+        mol, ks, dm = build(case)
+        nelec, exc, vmat = F.nr(ks, dm)
     evals = 1
     vm = np.asarray(vmat)
     if not (np.all(np.isfinite(vm)) and np.isfinite(exc)):
